@@ -3,7 +3,7 @@
    the str/bytes presentation of text fields), proofs Tmpl/PassProofs.v, Tmpl/ViewProofs.v. *)
 From Coq Require Import Arith NArith ZArith Ascii String List Bool.
 From HV Require Import Base.Bytes ZC.ZeroCode Tmpl.Template Tmpl.TemplateProofs Tmpl.Codec
-  Tmpl.CodecProofs Tmpl.PassProofs Tmpl.ViewProofs.
+  Tmpl.CodecProofs Tmpl.PassProofs Tmpl.ViewProofs Tmpl.SameProofs.
 From HVgen Require Import Template_gen.
 Import ListNotations.
 Open Scope list_scope.
@@ -91,11 +91,31 @@ Theorem C02_blocks_reencode : forall tbs buf bd rest,
 Proof. exact pack_parse_blocks. Qed.
 Print Assumptions C02_blocks_reencode.
 
-(* "In every case the re-encoding decodes to the same message" (C02_same_message of the design):
+(* "In every case the re-encoding decodes to the same message": for every datagram the header parser
+   accepts and whose body parses - canonical zero-coding or not, unread trailing bytes or not, NaNs or
+   not (equality is on wire values: the parsed message already holds the quieted floats) - the parsed
+   message can be re-encoded and the result decodes to exactly that message, PROVIDED the re-encoded
+   body is within the decoder's cap ([recode_within_cap]: for zero-coded messages the plain body is at
+   most ZC_CAP = 0x3000 bytes; vacuous otherwise).  The parsed message is in fact template-conformant
+   and in normal form (C02_parsed_is_conformant), so this is C01 applied to it. *)
+Theorem C02_same_message : forall d b m m', wf_dict d = true -> bytes_okb b = true ->
+  parse_header d b = Some m -> parse_body d m = Some m' ->
+  recode_within_cap d m' = true ->
+  exists b', serialize d m' = Some b' /\ bytes_okb b' = true /\ deserialize d b' = Some m'.
+Proof. exact same_message. Qed.
+Print Assumptions C02_same_message.
+
+Theorem C02_parsed_is_conformant : forall d b m m', wf_dict d = true -> bytes_okb b = true ->
+  parse_header d b = Some m -> parse_body d m = Some m' ->
+  recode_within_cap d m' = true ->
+  conforms d m' = true /\ normalize d m' = m'.
+Proof. exact parsed_conforms. Qed.
+Print Assumptions C02_parsed_is_conformant.
+
+(* Without [recode_within_cap] the statement
      forall d b m m', parse_header d b = Some m -> parse_body d m = Some m' ->
        exists b', serialize d m' = Some b' /\ deserialize d b' = Some m'
-   is FALSE of the code and no positive version is proved here (the harness checks the clause on every
-   generated datagram).  Witness: a zero-coded ChatFromViewer whose body is 12038 bytes followed by the
+   is FALSE of the code (known finding reencoded-above-zerocode-cap).  Witness: a zero-coded ChatFromViewer whose body is 12038 bytes followed by the
    wrap form 00 00 at the very end (= 257 zeros, 12295 > ZC_CAP = 12288 in the last chunk only): it is
    accepted and parsed, its canonical re-encoding (.. 00 ff 00 02) is refused by the decoder's cap. *)
 Definition cap_datagram : list N :=
@@ -115,6 +135,14 @@ Proof.
   split; [vm_compute; reflexivity|]. vm_compute; reflexivity.
 Qed.
 Print Assumptions C02_same_message_refuted.
+
+(* ... and the witness is exactly the excluded class *)
+Example C02_ex_cap_window_excluded : exists m m',
+  parse_header current_dict cap_datagram = Some m /\ parse_body current_dict m = Some m' /\
+  recode_within_cap current_dict m' = false.
+Proof.
+  eexists. eexists. split; [vm_compute; reflexivity|]. split; [vm_compute; reflexivity|]. vm_compute; reflexivity.
+Qed.
 
 (* ---------- non-vacuity / necessity of the hypotheses ---------- *)
 
@@ -144,6 +172,14 @@ Example C02_ex_noncanonical : exists m m',
 Proof.
   eexists. eexists. split; [vm_compute; reflexivity|]. split; [vm_compute; reflexivity|].
   split; [vm_compute; reflexivity|]. split; [vm_compute; reflexivity|]. vm_compute; reflexivity.
+Qed.
+
+(* same-message applies to the non-canonical datagram above and to one with trailing junk below *)
+Example C02_ex_same_message_hyp : exists m m',
+  parse_header current_dict chat_noncanon = Some m /\ parse_body current_dict m = Some m' /\
+  recode_within_cap current_dict m' = true.
+Proof.
+  eexists. eexists. split; [vm_compute; reflexivity|]. split; [vm_compute; reflexivity|]. vm_compute; reflexivity.
 Qed.
 
 (* unknown trailing bytes are dropped by a parse (so "consumed exactly" is needed), kept otherwise *)
